@@ -411,8 +411,11 @@ func loadBuiltinFromJSON() error {
 			classNode := base.ClassNode{Frame: classDef.Frame, Class: classDef.Class}
 			parentNode := base.ClassNode{Frame: "Builtin", Class: ""}
 
-			base.ClassInheritanceMap[classNode] =
-				append(base.ClassInheritanceMap[classNode], parentNode)
+			// once per class, not once per file that contributes to the class
+			if !slices.Contains(base.ClassInheritanceMap[classNode], parentNode) {
+				base.ClassInheritanceMap[classNode] =
+					append(base.ClassInheritanceMap[classNode], parentNode)
+			}
 		}
 
 		// extends Other Class
